@@ -370,8 +370,64 @@ func eq(a, b string) string {
 	return "(= " + a + " " + b + ")"
 }
 
+// sliceDefs maps names of slice values defined by the current function encoding to their
+// components, so that selectors of known slices fold at generation time (used only
+// during the single-threaded encoding phase).
+var sliceDefs = map[string][4]string{}
+
 func app(f string, args ...string) string {
+	if len(args) == 1 {
+		idx := -1
+		switch f {
+		case "s_base":
+			idx = 0
+		case "s_off":
+			idx = 1
+		case "s_len":
+			idx = 2
+		case "s_cap":
+			idx = 3
+		}
+		if idx >= 0 {
+			if c, ok := sliceDefs[args[0]]; ok {
+				return c[idx]
+			}
+			if strings.HasPrefix(args[0], "(mkslice ") {
+				if c, ok := splitMkslice(args[0]); ok {
+					return c[idx]
+				}
+			}
+		}
+	}
+	if len(args) == 2 && (f == "bvsub" || f == "bvadd") {
+		if a, wa, ok1 := litValue(args[0]); ok1 {
+			if b, _, ok2 := litValue(args[1]); ok2 && wa <= 64 {
+				var r uint64
+				if f == "bvadd" {
+					r = a.Uint64() + b.Uint64()
+				} else {
+					r = a.Uint64() - b.Uint64()
+				}
+				return bvLit(wa, r)
+			}
+		}
+		if f == "bvsub" && isZeroBV(args[1]) {
+			return args[0]
+		}
+	}
 	return "(" + f + " " + strings.Join(args, " ") + ")"
+}
+
+func splitMkslice(t string) ([4]string, bool) {
+	var out [4]string
+	fs, err := parseSexps(t)
+	if err != nil || len(fs) != 1 || fs[0].head() != "mkslice" || len(fs[0].list) != 5 {
+		return out, false
+	}
+	for i := 0; i < 4; i++ {
+		out[i] = fs[0].list[i+1].String()
+	}
+	return out, true
 }
 
 // bvadd with constant folding of zero
@@ -382,7 +438,7 @@ func bvadd(a, b string) string {
 	if isZeroBV(b) {
 		return a
 	}
-	return "(bvadd " + a + " " + b + ")"
+	return app("bvadd", a, b)
 }
 
 func isZeroBV(a string) bool {
